@@ -30,7 +30,14 @@ def describe(t: dict, r: dict):
     first = fs.rules_of(fs.adoptions(t))
     single = fs.culprit_by_single_rule(t, _bad)
     ruleset = t["id"].split(":")[0]
-    sig = {"rules2": second or "none", "alone": single if "+" not in single else "no",
+    cycle = "?"
+    if t.get("fixed2"):
+        try:      # diagnosis only: does a third fix come back to the first result (two rules undoing each other)?
+            t3 = fs.fixrec.record_case(dict(case, sql=t["fixed2"]))
+            cycle = "period2" if t3.get("fixed") == t.get("fixed") else "drifting"
+        except Exception:
+            pass
+    sig = {"rules2": second or "none", "alone": single if "+" not in single else "no", "cycle": cycle,
            "dialect": case["dialect"] if not case.get("configs") else "case", "template": fs.template_kind(case)}
     what = (f"second fix changes the text again (rule set {ruleset}, dialect {case['dialect']}; first run adopted {first or 'nothing'}, "
             f"second run adopted {second or 'nothing'}): {case['sql']!r} -> {t.get('fixed')!r} -> {t.get('fixed2')!r}")
@@ -41,7 +48,8 @@ def run(tier: str, seed: int) -> int:
     rep = Report(PROP, tier, seed, "model_checking")
     records = flr.run_models(rep, tier)
     rep.exhaustive = True
-    rep.extra["expected_non_invariants"] = flr.expected_non_invariants(rep, tier)
+    if flr.dev_mod() == 1:
+        rep.extra["expected_non_invariants"] = flr.expected_non_invariants(rep, tier)
     nonidem = [r for r in records if r["pred"]["res"][0] != r["pred"]["res"][1]]
     rep.extra["model_non_idempotent_behaviours"] = {
         "count": len(nonidem), "of": len(records),
